@@ -134,7 +134,7 @@ func c12GenActs(r *emit.Rng, real bool) []c12Act {
 		case 5:
 			acts = append(acts, c12Act{kind: 2})
 		case 6:
-			nb := r.Intn(40)
+			nb := 1 + r.Intn(39) // a zero-length ReadFrom before the header is the known finding readfrom-empty (own stream)
 			k := nb
 			if !real && r.Chance(1, 3) {
 				k = r.Intn(nb + 1)
@@ -467,6 +467,27 @@ func runC12(c *cli.Ctx) error {
 			}
 		}
 		w.Add(emit.C(3, emit.S(m), emit.SL(extra), emit.L(as), emit.B(panics), emit.B(real), impl), len(acts) >= 2, tags...)
+	}
+	if err := w.Flush(); err != nil {
+		return err
+	}
+	// ---- stream known-readfrom-empty: a zero-length ReadFrom before the header. net/http's writer does not commit
+	// the header for an empty ReadFrom, but the delegator forces WriteHeader(200) before delegating, so the
+	// instrumented handler answers 200 where the bare one answers the later explicit status.
+	w = emit.NewWriter(c.Out, "C12", "known-readfrom-empty")
+	{
+		acts := []c12Act{{kind: 3, a: 0, k: 0}, {kind: 0, a: 500}}
+		res, err := c12RunProg("GET", nil, acts, false, true, 31)
+		if err != nil {
+			return err
+		}
+		as := make([]string, len(acts))
+		for j, a := range acts {
+			as[j] = c12ActSx(a)
+		}
+		impl := emit.Tup(emit.S(res.code), emit.S(res.method), emit.I(res.count), emit.Z(res.bytes), emit.I(res.inflightAfter), emit.I(res.inflightIn),
+			emit.SL(res.ttwh), emit.I(res.peer), emit.B(res.identical), emit.I(res.durCount))
+		w.Add(emit.C(3, emit.S("GET"), emit.SL(nil), emit.L(as), emit.B(false), emit.B(true), impl), true, "known")
 	}
 	if err := w.Flush(); err != nil {
 		return err
